@@ -60,7 +60,8 @@ def from_bipartite_pandas_dataframe(
             if line[0] not in simplex_list[line[1]]:
                 simplex_list[line[1]].append(line[0])
 
-        H.add_simplices_from(list(simplex_list.values()))
+        # the dataframe carries the edge IDs: keep them (dict format: ID -> members)
+        H.add_simplices_from(dict(simplex_list))
     else:
         for line in d.itertuples(index=False):
             node = line[0]
